@@ -13,9 +13,10 @@ Raw    == JsonDeserialize(IOEnv.SAVE_TRACES)
 Traces == Raw.traces
 
 VARIABLES tid, l, bad, fsok, fin,
-          flow, dest, old, tmp, link, newc, prev, mutated, ended
+          flow, dest, old, tmp, link, newc, prev, mutated, ended,
+          oalias     \* <dest>.old is a second name (link) for the destination's file, not a copy
 
-tvars == <<tid, l, bad, fsok, fin, flow, dest, old, tmp, link, newc, prev, mutated, ended>>
+tvars == <<tid, l, bad, fsok, fin, flow, dest, old, tmp, link, newc, prev, mutated, ended, oalias>>
 
 NoFile == [ex |-> FALSE, data |-> ""]
 Empty  == [ex |-> TRUE, data |-> ""]
@@ -28,7 +29,7 @@ Init ==
   /\ tid \in 1..Len(Traces)
   /\ l = 1 /\ bad = "" /\ fsok = TRUE /\ fin = FALSE
   /\ flow = "" /\ dest = NoFile /\ old = NoFile /\ tmp = NoFile /\ link = FALSE
-  /\ newc = "" /\ prev = NoFile /\ mutated = FALSE /\ ended = "no"
+  /\ newc = "" /\ prev = NoFile /\ mutated = FALSE /\ ended = "no" /\ oalias = FALSE
 
 \* ---- the clauses (same as SaveFile.tla, on concrete contents)
 FirstFailing(fl, d, o, t, p, n, mut, e) ==
@@ -38,14 +39,17 @@ FirstFailing(fl, d, o, t, p, n, mut, e) ==
   ELSE IF e = "done" /\ fl = "cfg" /\ p.ex /\ p.data # n /\ o # p THEN "BackupMade"
   ELSE ""
 
-Judge == bad' = IF bad # "" THEN bad ELSE FirstFailing(flow', dest', old', tmp', prev', newc', mutated', ended')
+\* what reading <dest>.old yields
+EffOld(a, d, o) == IF a THEN d ELSE o
+Judge == bad' = IF bad # "" THEN bad
+                ELSE FirstFailing(flow', dest', EffOld(oalias', dest', old'), tmp', prev', newc', mutated', ended')
 
 Consume == l <= Len(T.events) /\ l' = l + 1
 
 EBegin ==
   /\ Consume /\ Ev.e = "begin"
   /\ flow' = Ev.flow /\ dest' = Ev.dest /\ old' = Ev.old /\ tmp' = NoFile /\ link' = Ev.link
-  /\ newc' = Ev.new /\ prev' = Ev.dest /\ mutated' = FALSE /\ ended' = "no"
+  /\ newc' = Ev.new /\ prev' = Ev.dest /\ mutated' = FALSE /\ ended' = "no" /\ oalias' = FALSE
   /\ UNCHANGED fsok
 
 SetFile(f, v) ==
@@ -54,16 +58,23 @@ SetFile(f, v) ==
   /\ tmp'  = IF f = "tmp" THEN v ELSE tmp
 GetFile(f) == IF f = "dest" THEN dest ELSE IF f = "old" THEN old ELSE IF f = "tmp" THEN tmp ELSE NoFile
 
+\* the file an operation on name f reaches
+Via(f) == IF f = "old" /\ oalias THEN "dest" ELSE f
+
 EOpen ==     \* open(f, "w") / copyfile opening its destination: create or truncate
-  /\ Consume /\ Ev.e = "open" /\ SetFile(Ev.f, Empty)
-  /\ mutated' = (mutated \/ Ev.f = "dest")
-  /\ UNCHANGED <<flow, link, newc, prev, ended, fsok>>
+  /\ Consume /\ Ev.e = "open" /\ SetFile(Via(Ev.f), Empty)
+  /\ mutated' = (mutated \/ Via(Ev.f) = "dest")
+  /\ UNCHANGED <<flow, link, newc, prev, ended, fsok, oalias>>
+
+EAlias ==    \* copyfile(dest -> dest.old, follow_symlinks=False) on a symlinked destination
+  /\ Consume /\ Ev.e = "alias" /\ Ev.f = "old" /\ oalias' = TRUE
+  /\ UNCHANGED <<flow, dest, old, tmp, link, newc, prev, mutated, ended, fsok>>
 
 EWrite ==    \* a chunk (possibly a torn one) reaches the file
   /\ Consume /\ Ev.e \in {"write", "torn"}
-  /\ SetFile(Ev.f, [ex |-> TRUE, data |-> GetFile(Ev.f).data \o Ev.d])
-  /\ mutated' = (mutated \/ Ev.f = "dest")
-  /\ UNCHANGED <<flow, link, newc, prev, ended, fsok>>
+  /\ SetFile(Via(Ev.f), [ex |-> TRUE, data |-> GetFile(Via(Ev.f)).data \o Ev.d])
+  /\ mutated' = (mutated \/ Via(Ev.f) = "dest")
+  /\ UNCHANGED <<flow, link, newc, prev, ended, fsok, oalias>>
 
 EReplace ==  \* os.replace(src, dst); a missing source raises and is ignored by _save_old
   /\ Consume /\ Ev.e = "replace"
@@ -73,35 +84,37 @@ EReplace ==  \* os.replace(src, dst); a missing source raises and is ignored by 
             /\ tmp'  = IF Ev.dst = "tmp" THEN GetFile(Ev.src) ELSE IF Ev.src = "tmp" THEN NoFile ELSE tmp
             /\ mutated' = (mutated \/ Ev.src = "dest" \/ Ev.dst = "dest")
        ELSE UNCHANGED <<dest, old, tmp, mutated>>
+  /\ oalias' = (oalias /\ Ev.dst # "old" /\ Ev.src # "old")    \* the name is replaced, not the file behind it
   /\ UNCHANGED <<flow, link, newc, prev, ended, fsok>>
 
 ERemove ==
   /\ Consume /\ Ev.e = "remove" /\ SetFile(Ev.f, NoFile)
   /\ mutated' = (mutated \/ Ev.f = "dest")
+  /\ oalias' = (oalias /\ Ev.f # "old")
   /\ UNCHANGED <<flow, link, newc, prev, ended, fsok>>
 
 ETouchMeta == \* utime or anything else that changes the destination's metadata
   /\ Consume /\ Ev.e = "meta"
   /\ mutated' = (mutated \/ Ev.f = "dest")
-  /\ UNCHANGED <<flow, dest, old, tmp, link, newc, prev, ended, fsok>>
+  /\ UNCHANGED <<flow, dest, old, tmp, link, newc, prev, ended, fsok, oalias>>
 
 ECrash ==
   /\ Consume /\ Ev.e = "crash" /\ ended' = "crashed"
-  /\ UNCHANGED <<flow, dest, old, tmp, link, newc, prev, mutated, fsok>>
+  /\ UNCHANGED <<flow, dest, old, tmp, link, newc, prev, mutated, fsok, oalias>>
 
 EEnd ==      \* the call returned; the disk must be what the model tracked
   /\ Consume /\ Ev.e = "end"
   /\ ended' = IF ended = "crashed" THEN ended ELSE "done"
-  /\ fsok' = (fsok /\ dest = Ev.disk.dest /\ old = Ev.disk.old)
+  /\ fsok' = (fsok /\ dest = Ev.disk.dest /\ EffOld(oalias, dest, old) = Ev.disk.old)
   /\ mutated' = (mutated \/ ~Ev.stat_same)
-  /\ UNCHANGED <<flow, dest, old, tmp, link, newc, prev>>
+  /\ UNCHANGED <<flow, dest, old, tmp, link, newc, prev, oalias>>
 
 Verdict ==
   /\ l = Len(T.events) + 1 /\ ~fin /\ fin' = TRUE
   /\ PrintT(<<"V", T.id, bad, fsok>>)
-  /\ UNCHANGED <<tid, l, bad, fsok, flow, dest, old, tmp, link, newc, prev, mutated, ended>>
+  /\ UNCHANGED <<tid, l, bad, fsok, flow, dest, old, tmp, link, newc, prev, mutated, ended, oalias>>
 
-Event == EBegin \/ EOpen \/ EWrite \/ EReplace \/ ERemove \/ ETouchMeta \/ ECrash \/ EEnd
+Event == EBegin \/ EOpen \/ EAlias \/ EWrite \/ EReplace \/ ERemove \/ ETouchMeta \/ ECrash \/ EEnd
 
 Next == (Event /\ Judge /\ UNCHANGED <<tid, fin>>) \/ Verdict
 Spec == Init /\ [][Next]_tvars
